@@ -278,16 +278,18 @@ def module_source(nodes, leaves, mode):
     for i, n in enumerate(nodes):
         if n["parent"] is None:
             continue
+        par = n["parent"]
         if mode == "callable":
-            src.append(f"    f{i} = None")
-            src.append(f"    s[{i}] = s[{n['parent']}].{n['op']}({n['text']})")
-            src.append(f"    p[{i}] = p[{n['parent']}].{n['op']}({n['text']})")
+            arg = n["text"]
         elif mode == "string":
-            src.append(f"    s[{i}] = s[{n['parent']}].{n['op']}({n['text']!r})")
-            src.append(f"    p[{i}] = p[{n['parent']}].{n['op']}(eval({n['text']!r}))")
+            arg = repr(n["text"])
         else:
-            src.append(f"    s[{i}] = s[{n['parent']}].{n['op']}(ast.parse({n['text']!r}, mode='eval').body)")
-            src.append(f"    p[{i}] = p[{n['parent']}].{n['op']}(eval({n['text']!r}))")
+            arg = f"ast.parse({n['text']!r}, mode='eval').body"
+        # one statement per stage; a stage that raises is recorded (and inherited by its descendants), not fatal
+        src.append("    try:")
+        src.append(f"        s[{i}] = s[{par}].{n['op']}({arg}) if not isinstance(s[{par}], Exception) else s[{par}]")
+        src.append("    except Exception as ex:")
+        src.append(f"        s[{i}] = ex")
     src.append("    return s, p")
     return "import ast\n" + "\n".join(src) + "\n"
 
@@ -381,6 +383,16 @@ def run_program(ctx, rnd, mode, typed, info):
     for leaf, term in leaves:
         s = streams[leaf]
         tname = None
+        if isinstance(s, Exception):
+            # a stage on this path raised while building: only a violation if python runs that path fine on real data
+            ok_path = all(not isinstance(directs[di][leaf], Exception) and directs[di][leaf] is not None for di in (1, 2))
+            ctx.case(src + str(leaf), nontrivial=True)
+            if ok_path:
+                kind = type(s).__name__
+                ctx.violation(f"build-raised:{kind}@{astx.repo_frame(s, REPO)}", f"{mode}/{'typed' if typed else 'untyped'}: building the chain raised {kind}: {str(s)[:200]} although python runs it\n{witness['source'][:800]}", {**witness, "leaf": leaf})
+            else:
+                ctx.count("trivial:build-raised-and-python-fails-too")
+            continue
         if term is not None:
             tname, targs = term
             try:
